@@ -10,8 +10,9 @@ EXTENDS TCSync, Json, IOUtils, TLCExt
 
 Rec == ndJsonDeserialize(IOEnv.TRACE)
 
-VARIABLE l          \* position in the trace
-tvars == <<vars, l>>
+VARIABLES l,        \* position in the trace
+          hist      \* [Replicas -> synchronised operations kept in storage] (operation history)
+tvars == <<vars, l, hist>>
 
 E == Rec[l]
 IsEvent(name) == l <= Len(Rec) /\ Rec[l].a = name /\ l' = l + 1
@@ -45,6 +46,7 @@ TReset ==
   /\ chain' = <<>> /\ snap' = NoSnap
   /\ sy' = [r \in Replicas |-> Idle]
   /\ err' = [r \in Replicas |-> FALSE]
+  /\ hist' = [r \in Replicas |-> <<>>]
 
 TEdit ==
   /\ IsEvent("Edit") /\ E.res = "ok" /\ JOpsOK(E.ops)
@@ -97,7 +99,12 @@ TSnapshotLost == IsEvent("Snapshot") /\ E.lost /\ SnapContent /\ SnapLostReply(E
 (* a request failed before taking effect *)
 TFault == IsEvent("Fault") /\ E.kind = "before" /\ SyncAbort(E.r)
 
-TCommit  == IsEvent("SyncCommit")  /\ SyncCommit(E.r)  /\ Post(E.r)
+(* sync_complete: the local operations become synchronised, the transformed server operations *)
+(* are recorded after them, and operations of tasks that no longer exist are forgotten        *)
+KeepExisting(ops, ts) == SelectSeq(ops, LAMBDA o : o.k = "P" \/ ts[o.u].ex)
+TCommit ==
+  /\ IsEvent("SyncCommit") /\ SyncCommit(E.r) /\ Post(E.r)
+  /\ hist' = [hist EXCEPT ![E.r] = KeepExisting(@ \o db[E.r].ops \o sy[E.r].acc, sy[E.r].tt)]
 TRebuild == IsEvent("SyncRebuild") /\ SyncRebuild(E.r) /\ Post(E.r)
 
 (* sync() returned *)
@@ -120,6 +127,10 @@ TObserve ==
   /\ IsEvent("Observe") /\ PostNow(E.r) /\ UNCHANGED vars
   /\ E.nlocal = Count(db[E.r].ops, IsChange)       \* num_local_operations
   /\ E.nundo = Count(db[E.r].ops, IsUndoPoint)     \* num_undo_points
+  \* get_task_operations(u): the task's synchronised and unsynchronised operations, in order
+  /\ \A i \in DOMAIN E.taskops :
+       /\ JOpsOK(E.taskops[i][2])
+       /\ JOps(E.taskops[i][2]) = SelectSeq(hist[E.r] \o db[E.r].ops, LAMBDA o : o.u = E.taskops[i][1])
 
 (* commit_operations returned an error (injected storage failure): nothing changed *)
 TEditFail == IsEvent("Edit") /\ E.res = "error" /\ PostNow(E.r) /\ UNCHANGED vars
@@ -159,12 +170,13 @@ TTrim == IsEvent("Trim") /\ ServerTrim(E.n)
 
 TRebuildLocal == IsEvent("Rebuild") /\ Rebuild(E.r, E.renumber) /\ Post(E.r)
 
-TNext ==
-  \/ TReset \/ TEdit \/ TStart \/ TGetSnapshot \/ TPull \/ TPush \/ TPushLost
-  \/ TSnapshot \/ TSnapshotLost \/ TFault \/ TCommit \/ TRebuild \/ TDone \/ TObserve
+TNextNoHist ==
+  \/ TEdit \/ TStart \/ TGetSnapshot \/ TPull \/ TPush \/ TPushLost
+  \/ TSnapshot \/ TSnapshotLost \/ TFault \/ TRebuild \/ TDone \/ TObserve
   \/ TEditFail \/ TInstallWS \/ TGetUndo \/ TUndo \/ TUndoFail \/ TRebuildLocal \/ TExpire \/ TTrim
+TNext == TReset \/ TCommit \/ (TNextNoHist /\ UNCHANGED hist)
 
-TInit == Init /\ l = 1
+TInit == Init /\ l = 1 /\ hist = [r \in Replicas |-> <<>>]
 TSpec == TInit /\ [][TNext]_tvars
 
 (* accepted iff every line was consumed *)
